@@ -41,7 +41,7 @@ tape_st = st.fixed_dictionaries({
 
 def plan(tier):
     n = 60 if tier == "quick" else 1500
-    return [(f"gen-{i}", {"n": n}) for i in range(16)] + [(f"exotic-{i}", {"n": 30 if tier == "quick" else 1500}) for i in range(16)]
+    return [(f"gen-{i}", {"n": n}) for i in range(16)] + [(f"exotic-{i}", {"n": 50 if tier == "quick" else 1500}) for i in range(16)]
 
 
 def nontrivial(feats, out, n):
